@@ -183,6 +183,12 @@ impl Store {
             }
         }
 
+        // Remove the backup of a previous rebuild (a directory cannot be renamed onto a
+        // non-empty one)
+        if indexes_bak_path.exists() {
+            fs::remove_dir_all(&indexes_bak_path)?;
+        }
+
         // Backup existing data (moving out of the way)
         fs::rename(&events_path, &events_bak_path)?;
         fs::rename(&indexes_path, &indexes_bak_path)?;
@@ -259,6 +265,17 @@ impl Store {
         new_txn.commit()?;
 
         new_store.sync()?;
+
+        // Close the old environment. Otherwise this process keeps the backup open, and a
+        // later rebuild would be handed that same (by then removed) environment again.
+        drop(old_txn);
+        let Store {
+            events: old_events,
+            indexes: old_indexes,
+            ..
+        } = old_store;
+        old_indexes.close()?;
+        drop(old_events);
 
         if need_chown {
             std::os::unix::fs::chown(&events_path, Some(file_uid), None)?;
